@@ -147,6 +147,11 @@ def evaluate(prop, cases, workdir, tag):
                 continue
             rec["skip"] = "parse_error"
             continue
+        if c.get("light") and hasattr(prop, "verdict_expr_light"):
+            # cases whose point is the call history / concurrency, with very large texts: decided by the observations alone,
+            # no IR / output terms are handed to Coq for them
+            items.append((c["id"], "", prop.verdict_expr_light(c, r)))
+            continue
         real = coq_real(r)
         if real is None:
             if hasattr(prop, "verdict_expr_noout"):
